@@ -23,25 +23,32 @@ def patch_tokens():
     secrets.token_bytes = _token_bytes
 
 
+class ObserverAbort(BaseException):
+    """what an observer may raise that is not an Exception (like asyncio.CancelledError or SystemExit from a callback)"""
+
+
 class Recorder:
     def __init__(self, sut, raising):
+        """raising: False, True (RuntimeError / ValueError) or "base" (an exception outside the Exception hierarchy)"""
         from okdmr.dmrlib.transmission.transmission_observer_interface import TransmissionObserverInterface
+        Err1 = ObserverAbort if raising == "base" else RuntimeError
+        Err2 = ObserverAbort if raising == "base" else ValueError
 
         class Obs(TransmissionObserverInterface):
             def transmission_started(o, transmission_type):
                 self.ev.append({"e": "started", "k": kind(transmission_type), "hk": "None", "hid": 0, "blocks": []})
                 if raising:
-                    raise RuntimeError("observer raises")
+                    raise Err1("observer raises")
 
             def data_transmission_ended(o, transmission_header, blocks):
                 self.ev.append(ended("Data", transmission_header, blocks))
                 if raising:
-                    raise RuntimeError("observer raises")
+                    raise Err1("observer raises")
 
             def voice_transmission_ended(o, voice_header, blocks):
                 self.ev.append(ended("Voice", voice_header, blocks))
                 if raising:
-                    raise ValueError("observer raises")
+                    raise Err2("observer raises")
 
         self.ev = []
         self.obs = Obs()
@@ -164,7 +171,7 @@ class Sut:
                 else:
                     self.term.timeslots[ts].transmission.end_transmissions()
                     out["stream"] = int.from_bytes(self.term.timeslots[ts].transmission.stream_no, "big")
-        except Exception as ex:  # noqa
+        except (Exception, ObserverAbort) as ex:  # noqa
             out["outcome"] = "raise:" + type(ex).__name__
         out["ev"] = list(self.recs[0].ev)
         ab = {"cls": b["cls"], "id": b["id"], "btf": b["btf"], "a": bool(b["a"]), "cc": b["cc"]}
@@ -566,7 +573,7 @@ def run(ctx):
     jobs = []
     for n, t in enumerate(tours):
         steps = [(e["ts"], e["op"], e["b"] if e["op"] == "burst" else None) for e in t]
-        obs = (False,) if n % 3 else (True, False, True)
+        obs = (False,) if n % 3 else ((True, False, True) if n % 2 else ("base", False, True))
         jobs.append((ctx.seed * 1000 + n, obs, steps))
     for t in tours:
         for e in t:
@@ -584,7 +591,7 @@ def run(ctx):
     jobs = []
     for i in range(n):
         steps = random_history(ctx.rng, ctx.rng.randrange(10, ln))
-        obs = tuple(ctx.rng.random() < 0.4 for _ in range(ctx.rng.randrange(1, 4)))
+        obs = tuple(ctx.rng.choice([False, False, False, True, True, "base"]) for _ in range(ctx.rng.randrange(1, 4)))
         jobs.append((ctx.seed * 7919 + i, obs, steps))
     for i in range(10 if ctx.quick else 60):       # transmissions longer than the 8-bit receive sequence counter
         jobs.append((ctx.seed * 7919 + n + i, (False,), long_history(ctx.rng, i % 5)))
